@@ -25,7 +25,7 @@ ALL_CB = ["on_open", "on_message", "on_data", "on_ping", "on_pong", "on_error", 
 
 def bounds(tier):
     if tier == "quick":
-        return ("28 endings x {no ping thread, ping thread} x {plain, TLS}; preemption bound 1 at synchronisation points for ping-thread scenarios; closer thread: "
+        return ("29 endings x {no ping thread, ping thread} x {plain, TLS}; preemption bound 1 at synchronisation points for ping-thread scenarios; closer thread: "
                 "1 preemption at every synchronisation point (all scenarios) and at every executed line (one scenario)")
     return ("same scenarios; preemption bound 2 at synchronisation points; closer thread: 1 preemption at every executed library line for every closer scenario, 2 at synchronisation points")
 
@@ -49,6 +49,9 @@ def endings():
     E.append(("unknown-opcode", dict(tail=[(3.0, "data", R.encode(3, b"x", byte0=0x83))]), dict(close=(None, None), err=True)))
     E.append(("cont-without-start", dict(tail=[(3.0, "data", R.encode(R.CONT, b"x"))]), dict(close=(None, None), err=True)))
     E.append(("silence-ping-timeout", dict(tail=[], silent_pings=True, needs_ping=True), dict(close=(None, None), err=True)))
+    # the peer never answers a ping but keeps talking (a message every 0.5 s) and would close cleanly at t=30: the ping timeout must end the run long before
+    E.append(("chatty-silence-ping-timeout", dict(tail=[(3.0 + 0.5 * i, "data", R.encode(R.TEXT, b"c")) for i in range(54)] + [(30.0, "data", R.encode(R.CLOSE, b"\x03\xe8"))],
+                                                  silent_pings=True, needs_ping=True), dict(close=(None, None), err=True)))
     # a clean first run followed by a second run whose end depends on the keepalive machinery working again
     E.append(("clean-then-silent-second-run", dict(tail=[(3.0, "data", R.encode(R.CLOSE, b"\x03\xe8"))], needs_ping=True, second="silent"),
               dict(close=(1000, ""), err=False, second=dict(close=(None, None), err=True))))
